@@ -6,6 +6,7 @@ CONSTANTS
   OptLen = 3
   MaxCodons = 0
   PairCodons = 0
+  OrfFamily = FALSE
   LongLens = {}
   SymLen = 0
 INVARIANT TypeOK
@@ -16,5 +17,6 @@ INVARIANT EncodeResolveInverse
 INVARIANT SixFrameLaw
 INVARIANT AnticodonFrameLaw
 INVARIANT StopLaws
+INVARIANT UniqueFrameFamily
 INVARIANT LongLaw
 INVARIANT CodonLaw
